@@ -74,9 +74,26 @@ class ObsDomain(EvDomain):
     def container_empty(self, X):
         return self.atom('observers_empty') if X == OBS else None
 
+    extra_scalars = ()       # scalar members of the Subject outside the delivery tables (set per class by the analysis)
+
+    def summarise_loop(self, ex, loop, st, fr):
+        # one iteration stands for every iteration: when the body runs user callbacks (directly or through a helper of the class), the
+        # extra scalar members at the loop head are whatever earlier iterations' callbacks left there
+        if self.extra_scalars and loop is not None and fr.this and fr.this[0] == 'this':
+            body = loop.n('body') or loop
+            if any(x.k == 'call' and (x.virtual or (x.ck == 'op' and x.op == '()') or x.callee_in_root) for x in body.walk()):
+                for x in self.extra_scalars:
+                    ex.write(('f', fr.this + (x,)), Unknown(('at-loop-head', x, loop.id)), st, loop)
+        return None
+
     def vcall_result(self, ex, n, q, base, on, ov, vals, st, fr):
         if base == 'isValid':
             v = self.atom('obs_valid'); return v
+        if base == 'operator()':
+            # the user callback may call any public member of this Subject (subscribe / unsubscribe / notify): what the extra scalar
+            # members (a removal counter, a dirty flag, a cached size) hold afterwards is not what they held before
+            for x in self.extra_scalars:
+                ex.write(('f', fr.this + (x,)) if fr.this and fr.this[0] == 'this' else ('f', ('this', x)), Unknown(('after-callback', x, n.id)), st, n)
         return None
 
     def field_value(self, path, node):
@@ -220,13 +237,20 @@ class SubjectAnalysis:
         self._stable_storage(S, short, f, deliver)
         # path rules: SUB.2 / SUB.6 / RE.1 / RE.4 / SUB.1
         order_seen = set()
+        cls_ = self.facts.cls(S) or {}
+        ObsDomain.extra_scalars = tuple(x['name'] for x in cls_.get('fields', []) if x['name'] not in (OBS, ACT, CNT) and (x['ctype'].replace('const ', '') in ('bool', 'int', 'unsigned int', 'long', 'unsigned long', 'unsigned long long', 'long long', 'size_t', 'std::size_t', 'uint64_t', 'unsigned char', 'char', 'short') or x['ctype'].startswith('std::atomic<')))
         for id_active, obs_valid in itertools.product([True, False], [True, False]):
             dom = ObsDomain(dict(id_active=id_active, obs_valid=obs_valid))
             res = run_paths(self.facts, f, dom)
             row = f'(id active={id_active}, observer valid after call={obs_valid})'
-            bad = {}; n_paths = 0; n_inv = 0; lazy_seen = dict(o=False, a=False, n=0)
+            bad = {}; n_paths = 0; n_inv = 0; lazy_seen = dict(o=False, a=False, n=0); row_undecided = None
             for P, E in res:
                 if P.end in ('throw', 'noreturn'): continue
+                xf = common.extra_field_fork(P, 'tulz::Subject', (OBS, ACT, CNT))
+                if xf is not None:
+                    # the path was chosen by a test of a member the delivery tables know nothing about (a removal counter, a dirty flag):
+                    # whether "nothing changed since the snapshot" follows from it is not followed
+                    row_undecided = xf; continue
                 n_paths += 1
                 vis = [(i, c) for i, c in loop_visits(E, conds) if E[i].node.id == dcond]
                 bounds = [i for i, c in vis] + [len(E)]
@@ -289,6 +313,8 @@ class SubjectAnalysis:
                     order_seen.add(od); self._order_verdict(S, short, fns, od, deliver)
             if id_active and obs_valid and not order_seen:
                 self.add('SUB.1', None, f'{short}: order parity', deliver.shortloc(), 'how the snapshot is filled from m_observers was not recognised (no insertion into a local container, no range construction)')
+            if row_undecided is not None:
+                self.add('SUB.2', None, f'{short}::notify row {row}', row_undecided.shortloc(), f'some paths of the round depend on `{(row_undecided.text() or "")[:50]}`, a test of a member outside the delivery tables: not followed')
             if 'noloop' in bad:
                 self.add('SUB.2', None, f'{short}::notify row {row}', site, 'the iterations of the delivery loop were not identified on the evaluated paths'); continue
             if n_paths == 0: continue
